@@ -1351,6 +1351,89 @@ def _memo_of_pure_call(f, fself, attr, mentions) -> bool:
     return False
 
 
+def flatten_joined_sublists(tree: ast.Module) -> int:
+    """`part = []` ... `part.append(e)` ... `out.append(b"".join(part))` (the shape an inlined helper that builds and returns its
+    piece leaves behind): the pieces go to `out` directly.  Only when `part` is used for nothing else and `out` is not mentioned
+    between the creation of `part` and the statement that joins it (concatenation is associative, the order stays the same)."""
+    n = 0
+    for fn in ast.walk(tree):
+        if not isinstance(fn, (ast.FunctionDef, ast.AsyncFunctionDef)):
+            continue
+        changed = True
+        while changed:
+            changed = False
+            parents = {id(c): p_ for p_ in ast.walk(fn) for c in ast.iter_child_nodes(p_)}
+            for holder in ast.walk(fn):
+                for fld in ("body", "orelse", "finalbody"):
+                    blk = getattr(holder, fld, None)
+                    if not (isinstance(blk, list) and blk and isinstance(blk[0], ast.stmt)):
+                        continue
+                    for i, st in enumerate(blk):
+                        if not (isinstance(st, ast.Assign) and len(st.targets) == 1 and isinstance(st.targets[0], ast.Name)
+                                and isinstance(st.value, ast.List) and not st.value.elts):
+                            continue
+                        part = st.targets[0].id
+                        uses = [x for x in _walk_own_deep(fn) if isinstance(x, ast.Name) and x.id == part and x is not st.targets[0]]
+                        apps, joins, ok = [], [], True
+                        extra_del = []
+                        for u in uses:
+                            par = parents.get(id(u))
+                            gp = parents.get(id(par)) if par is not None else None
+                            if isinstance(par, ast.Attribute) and par.attr == "append" and isinstance(gp, ast.Call) and gp.func is par and len(gp.args) == 1 \
+                                    and isinstance(parents.get(id(gp)), ast.Expr):
+                                apps.append(gp)
+                            elif (isinstance(par, ast.Call) and isinstance(par.func, ast.Attribute) and par.func.attr == "join" and isinstance(par.func.value, ast.Constant)
+                                    and par.func.value.value == b"" and par.args == [u] and isinstance(gp, ast.Call) and isinstance(gp.func, ast.Attribute)
+                                    and gp.func.attr == "append" and isinstance(gp.func.value, ast.Name) and gp.args == [par] and isinstance(parents.get(id(gp)), ast.Expr)):
+                                joins.append(gp)
+                            elif (isinstance(par, ast.Call) and isinstance(par.func, ast.Attribute) and par.func.attr == "join" and isinstance(par.func.value, ast.Constant)
+                                    and par.func.value.value == b"" and par.args == [u] and isinstance(gp, ast.Assign) and len(gp.targets) == 1
+                                    and isinstance(gp.targets[0], ast.Name) and gp.value is par and gp in blk):
+                                # tmp = b"".join(part)  ...  out.append(tmp)   (tmp used for nothing else)
+                                tmp = gp.targets[0].id
+                                tuses = [x for x in _walk_own_deep(fn) if isinstance(x, ast.Name) and x.id == tmp and x is not gp.targets[0]]
+                                if len(tuses) == 1:
+                                    tp = parents.get(id(tuses[0]))
+                                    tpp = parents.get(id(tp)) if tp is not None else None
+                                    if (isinstance(tp, ast.Call) and isinstance(tp.func, ast.Attribute) and tp.func.attr == "append" and isinstance(tp.func.value, ast.Name)
+                                            and tp.args == [tuses[0]] and isinstance(tpp, ast.Expr) and tpp in blk and blk.index(tpp) == blk.index(gp) + 1):
+                                        joins.append(tp)
+                                        extra_del.append(gp)
+                                        continue
+                                ok = False
+                            else:
+                                ok = False
+                        if not ok or len(joins) != 1 or not apps:
+                            continue
+                        out = joins[0].func.value.id
+                        if out == part:
+                            continue
+                        join_stmt = parents.get(id(joins[0]))
+                        if join_stmt not in blk or blk.index(join_stmt) <= i:
+                            continue
+                        j = blk.index(join_stmt)
+                        between = [s_ for s_ in blk[i + 1:j] if s_ not in extra_del]
+                        if any(isinstance(x, ast.Name) and x.id == out for s_ in between for x in ast.walk(s_)):
+                            continue
+                        for a in apps:
+                            a.func.value = ast.copy_location(ast.Name(id=out, ctx=ast.Load()), a.func.value)
+                        del blk[j]
+                        for x_ in extra_del:
+                            if x_ in blk:
+                                blk.remove(x_)
+                        del blk[i]
+                        n += 1
+                        changed = True
+                        break
+                    if changed:
+                        break
+                if changed:
+                    break
+    if n:
+        ast.fix_missing_locations(tree)
+    return n
+
+
 def normalise_memo_tables(tree: ast.Module) -> int:
     """A hand-written per-instance memo table is the `lru_cache` idiom the package uses:
 
